@@ -55,5 +55,49 @@ def gen_quote():
         out.append("def %sFlags : Nat := %d" % (lean_name, rx.flags))
     out.append("def hexAlphabet : String := %s" % lean_str(q.HEX))
     out.append("")
+    # what `safely_quote_qsl` leaves alone in a key / in a value: probed on the real function, every ASCII
+    # character (`%` apart: it is looked at as a stray percent sign below)
+    def qsl(k, v):
+        try:
+            r = q.safely_quote_qsl([(k, v)])
+            return r[0] if len(r) == 1 else None
+        except Exception:  # noqa
+            return None
+
+    def alone(c, i):
+        x = "a" + chr(c) + "z"
+        r = qsl(x, "v") if i == 0 else qsl("k", x)
+        return r is not None and r[i] == x
+
+    safe_key = [c for c in range(0x80) if c != 0x25 and alone(c, 0)]
+    safe_val = [c for c in range(0x80) if c != 0x25 and alone(c, 1)]
+
+    def esc(ch):
+        return "".join("%%%02X" % b for b in ch.encode("utf-8"))
+
+    others = all(
+        qsl(chr(c), chr(c)) == (esc(chr(c)), esc(chr(c)))
+        for c in sorted(set(range(0x80, 0x3100)) | set(range(0x3100, 0x110000, 61)) | {0x7FF, 0x800, 0xFFFF, 0x10000, 0x10FFFF})
+        if not (0xD800 <= c < 0xE000)
+    )
+    rest = (
+        qsl("a%zz", "%") == ("a%25zz", "%25")
+        and qsl("%41%2b", "%2B%zz%e9") == ("%41%2b", "%2B%25zz%e9")
+        and qsl("k", None) == ("k", None)
+        and q.safely_quote_qsl([]) == []
+        and q.safely_quote_qsl([("a", "b"), ("c d", None), ("+", "+")]) == [("a", "b"), ("c%20d", None)] + [qsl("+", "+")]
+    )
+    out.append("/-- the ASCII code points `ural.quote.safely_quote_qsl` leaves alone in a KEY (probed on the function: the")
+    out.append("key `a` + c + `z` comes back unchanged; `%` apart) -/")
+    out.append("def qslQuoteSafeKey : List Nat := %s" % lean_nat_list(safe_key))
+    out.append("/-- the same for a VALUE -/")
+    out.append("def qslQuoteSafeValue : List Nat := %s" % lean_nat_list(safe_val))
+    out.append("/-- `safely_quote_qsl` turns every non-ASCII code point (probed: U+0080–U+30FF, every 61st code point above,")
+    out.append("the UTF-8 length boundaries) of a key / value into the escapes of its UTF-8 bytes -/")
+    out.append("def qslQuoteEscapesNonAscii : Bool := %s" % ("true" if others else "false"))
+    out.append("/-- `safely_quote_qsl` escapes a stray `%`, keeps existing escapes as written, keeps a missing value missing and")
+    out.append("works item by item -/")
+    out.append("def qslQuoteShape : Bool := %s" % ("true" if rest else "false"))
+    out.append("")
     out.append("end Ural.Gen.Quote")
     return {"QuoteTables.lean": "\n".join(out) + "\n"}
